@@ -1,6 +1,6 @@
 /-
 Line-protocol driver for C14: per line
-  {"nodes":[{"fname":s,"args":[pyval…],"kwargs":[[k,pyval]…],"inputs":[[parent,output|null]…]}…],
+  {"nodes":[{"fname":s,"args":[pyval…],"kwargs":[[k,pyval]…],"inputs":[[parent,output|null]…],"outputs":n}…],
    "sources":[[[fname,[i,j…]]…]…]}
 answer {"renders":[the string that is hashed, per node],"inputs":[[input names] per node],
         "labels":[[label per source node] per from_source call]}
@@ -49,7 +49,8 @@ def nodeOut (j : Json) : Json × Json :=
     | [par, .str o] => inputName (asStr par).toList (some o.toList)
     | [par, _] => inputName (asStr par).toList none
     | _ => [])
-  let c : Comp Statics := { func := { name := fname, ident := 0 }, statics := (args, kwargs), inputs := inputs }
+  let outputs := match j.getObjVal? "outputs" with | .ok (.num _) => getNat j "outputs" | _ => 1
+  let c : Comp Statics := { func := { name := fname, ident := 0 }, statics := (args, kwargs), inputs := inputs, outputs := outputs }
   (Json.str (strOf (render renderStatics c)), strs (inputs.map strOf))
 
 def sourceOut (j : Json) : Json :=
